@@ -16,11 +16,65 @@ pub struct Case {
     pub fail_write: Option<u64>,
     pub kind: FaultKind,
     pub cap: usize,
+    /// which builder and which calls: see `VIA`
+    pub via: u8,
+}
+
+/// 0 raw::Builder insert/add + finish; 1 MapBuilder/SetBuilder insert + finish; 2 the same +
+/// into_inner; 3 extend_iter (raw for maps, SetBuilder for sets) + into_inner; 4 MapBuilder/
+/// SetBuilder extend_stream + finish
+pub const VIA: [&str; 5] = ["raw+finish", "wrapper+finish", "wrapper+into_inner", "extend_iter+into_inner", "extend_stream+finish"];
+
+enum BB<W: std::io::Write> {
+    Raw(fst::raw::Builder<W>),
+    Map(fst::MapBuilder<W>),
+    Set(fst::SetBuilder<W>),
+}
+
+impl<W: std::io::Write> BB<W> {
+    fn new(sink: W, via: u8, set: bool) -> Result<BB<W>, fst::Error> {
+        Ok(match (via, set) {
+            (0, _) | (3, false) => BB::Raw(fst::raw::Builder::new(sink)?),
+            (_, true) => BB::Set(fst::SetBuilder::new(sink)?),
+            (_, false) => BB::Map(fst::MapBuilder::new(sink)?),
+        })
+    }
+    fn insert(&mut self, set: bool, k: &[u8], v: u64) -> Result<(), fst::Error> {
+        match self {
+            BB::Raw(b) => if set { b.add(k) } else { b.insert(k, v) },
+            BB::Map(b) => b.insert(k, v),
+            BB::Set(b) => b.insert(k),
+        }
+    }
+    fn bulk_iter(&mut self, pairs: &Pairs) -> Result<(), fst::Error> {
+        match self {
+            BB::Raw(b) => b.extend_iter(pairs.iter().map(|(k, v)| (k, fst::raw::Output::new(*v)))),
+            BB::Map(b) => b.extend_iter(pairs.iter().map(|(k, v)| (k, *v))),
+            BB::Set(b) => b.extend_iter(pairs.iter().map(|(k, _)| k)),
+        }
+    }
+    fn bulk_stream(&mut self, pairs: &Pairs) -> Result<(), fst::Error> {
+        match self {
+            BB::Raw(b) => b.extend_stream(gen::VecStream::new(pairs)),
+            BB::Map(b) => b.extend_stream(gen::MapVecStream(gen::VecStream::new(pairs))),
+            BB::Set(b) => b.extend_stream(gen::KeyStream { items: pairs, pos: 0 }),
+        }
+    }
+    fn end(self, into_inner: bool) -> Result<(), fst::Error> {
+        match (self, into_inner) {
+            (BB::Raw(b), false) => b.finish(),
+            (BB::Raw(b), true) => b.into_inner().map(|_| ()),
+            (BB::Map(b), false) => b.finish(),
+            (BB::Map(b), true) => b.into_inner().map(|_| ()),
+            (BB::Set(b), false) => b.finish(),
+            (BB::Set(b), true) => b.into_inner().map(|_| ()),
+        }
+    }
 }
 
 impl Case {
     fn to_json(&self) -> Value {
-        json!({"pairs": pairs_json(&self.pairs), "set": self.set, "fail_write": self.fail_write, "kind": self.kind.name(), "cap": self.cap.to_string()})
+        json!({"pairs": pairs_json(&self.pairs), "set": self.set, "fail_write": self.fail_write, "kind": self.kind.name(), "cap": self.cap.to_string(), "via": self.via})
     }
     fn from_json(v: &Value) -> Option<Case> {
         Some(Case {
@@ -29,19 +83,26 @@ impl Case {
             fail_write: v.get("fail_write")?.as_u64(),
             kind: FaultKind::from_name(v.get("kind")?.as_str()?)?,
             cap: v.get("cap")?.as_str()?.parse().ok()?,
+            via: v.get("via").and_then(|x| x.as_u64()).unwrap_or(0) as u8,
         })
     }
 }
 
 /// (number of write calls, bytes) of a fault-free build with the given cap.
-fn measure(pairs: &Pairs, set: bool, cap: usize) -> Result<(u64, Vec<u8>), Fail> {
+fn measure(pairs: &Pairs, set: bool, cap: usize, via: u8) -> Result<(u64, Vec<u8>), Fail> {
     let (sink, st) = FaultSink::new(None, false, FaultKind::Other, cap);
-    let mut b = fst::raw::Builder::new(sink).map_err(|e| Fail::new("io-error", format!("fault-free build failed: {:?}", e)))?;
-    for (k, v) in pairs {
-        let r = if set { b.add(k) } else { b.insert(k, *v) };
-        r.map_err(|e| Fail::new("io-error", format!("fault-free build failed: {:?}", e)))?;
+    let fe = |e: fst::Error| Fail::new("io-error", format!("fault-free build ({}) failed: {:?}", VIA[via as usize % 5], e));
+    let mut b = BB::new(sink, via, set).map_err(fe)?;
+    match via {
+        3 => b.bulk_iter(pairs).map_err(fe)?,
+        4 => b.bulk_stream(pairs).map_err(fe)?,
+        _ => {
+            for (k, v) in pairs {
+                b.insert(set, k, *v).map_err(fe)?;
+            }
+        }
     }
-    b.finish().map_err(|e| Fail::new("io-error", format!("fault-free build failed: {:?}", e)))?;
+    b.end(via == 2 || via == 3).map_err(fe)?;
     let st = st.borrow();
     Ok((st.writes, st.data.clone()))
 }
@@ -55,11 +116,11 @@ fn io_kind(r: &Result<(), fst::Error>) -> Option<std::io::ErrorKind> {
 
 pub fn check(c: &Case, rec: &mut Rec) -> CheckResult {
     rec.eval();
-    let (w, reference) = measure(&c.pairs, c.set, c.cap)?;
+    let (w, reference) = measure(&c.pairs, c.set, c.cap, c.via)?;
     let (sink, st) = FaultSink::new(c.fail_write, c.fail_write.is_none(), c.kind, c.cap);
     let want_kind = c.kind.expected();
     let kind_changed = std::cell::Cell::new(0u32);
-    let desc = || format!("fault {} at {} (of {} write calls), cap {}, keys {}", c.kind.name(), c.fail_write.map(|i| format!("write #{}", i)).unwrap_or("flush".into()), w, c.cap, crate::oracle::keys_show(&c.pairs));
+    let desc = || format!("{}: fault {} at {} (of {} write calls), cap {}, keys {}", VIA[c.via as usize % 5], c.kind.name(), c.fail_write.map(|i| format!("write #{}", i)).unwrap_or("flush".into()), w, c.cap, crate::oracle::keys_show(&c.pairs));
     // one builder call: its result must be Err(Io(kind)) iff the fault fired during it
     let judge = |name: &str, fired_before: bool, r: &Result<(), fst::Error>| -> Result<bool, Fail> {
         let fired = st.borrow().fired;
@@ -85,7 +146,7 @@ pub fn check(c: &Case, rec: &mut Rec) -> CheckResult {
         }
     };
     let outcome: Result<Result<&'static str, Fail>, String> = crate::engine::catch(|| {
-        let mut b = match fst::raw::Builder::new(sink) {
+        let mut b = match BB::new(sink, c.via, c.set) {
             Ok(b) => b,
             Err(e) => {
                 let r: Result<(), fst::Error> = Err(e);
@@ -99,15 +160,24 @@ pub fn check(c: &Case, rec: &mut Rec) -> CheckResult {
         if st.borrow().fired {
             return Err(Fail::new("fault-swallowed", format!("Builder::new ran into the injected fault but returned Ok; {}", desc())));
         }
-        for (i, (k, v)) in c.pairs.iter().enumerate() {
-            let r = if c.set { b.add(k) } else { b.insert(k, *v) };
-            match judge(&format!("insert #{}", i), false, &r) {
+        if c.via == 3 || c.via == 4 {
+            let r = if c.via == 3 { b.bulk_iter(&c.pairs) } else { b.bulk_stream(&c.pairs) };
+            match judge(if c.via == 3 { "extend_iter" } else { "extend_stream" }, false, &r) {
                 Ok(true) => return Ok("fault_in_insert"),
                 Ok(false) => {}
                 Err(f) => return Err(f),
             }
+        } else {
+            for (i, (k, v)) in c.pairs.iter().enumerate() {
+                let r = b.insert(c.set, k, *v);
+                match judge(&format!("insert #{}", i), false, &r) {
+                    Ok(true) => return Ok("fault_in_insert"),
+                    Ok(false) => {}
+                    Err(f) => return Err(f),
+                }
+            }
         }
-        let r = b.finish();
+        let r = b.end(c.via == 2 || c.via == 3);
         match judge("finish", false, &r) {
             Ok(true) => Ok("fault_in_finish"),
             Ok(false) => {
@@ -138,12 +208,13 @@ pub fn check(c: &Case, rec: &mut Rec) -> CheckResult {
             rec.class("io_error_kind_not_passed_through(informational)");
         }
         rec.class(&format!("kind:{}", c.kind.name()));
+        rec.class(&format!("via:{}", VIA[c.via as usize % 5]));
         if c.fail_write.is_none() {
             rec.class("fault_in_flush");
         }
         let deep = c.fail_write.map(|i| i >= 2).unwrap_or(true);
         if deep && class != "no_fault_reached" {
-            rec.nontrivial(H::new().pairs(&c.pairs).u(c.set as u64).u(c.fail_write.unwrap_or(u64::MAX)).u(c.kind as u64).u(c.cap as u64).get());
+            rec.nontrivial(H::new().pairs(&c.pairs).u(c.set as u64).u(c.fail_write.unwrap_or(u64::MAX)).u(c.kind as u64).u(c.cap as u64).u(c.via as u64).get());
             if rec.wants_sample() {
                 rec.sample(json!(desc()));
             }
@@ -154,21 +225,34 @@ pub fn check(c: &Case, rec: &mut Rec) -> CheckResult {
 
 /// Enumerate every fault position x kind for one sequence.
 fn enumerate(pairs: &Pairs, set: bool, cap: usize, rec: &mut Rec) -> Result<(), (Value, Fail)> {
-    let (w, _) = measure(pairs, set, cap).map_err(|f| (json!({"pairs": pairs_json(pairs)}), f))?;
+    // the number of write calls is measured per route (they need not agree)
+    let mut ws = [0u64; 5];
+    for via in 0..5u8 {
+        ws[via as usize] = measure(pairs, set, cap, via).map_err(|f| (json!({"pairs": pairs_json(pairs), "set": set, "cap": cap.to_string()}), f))?.0;
+    }
+    let w = *ws.iter().max().unwrap();
     // the fault-free run of the same sequence exercises the success clause:
     // finish may report Ok only with the complete file accepted *and flushed
     // after the last write*
     {
-        let c = Case { pairs: pairs.clone(), set, fail_write: Some(w + 1_000_000), kind: FaultKind::Other, cap };
-        crate::engine::guarded(|| check(&c, rec)).map_err(|f| (c.to_json(), f))?;
+        for via in 0..5u8 {
+            let c = Case { pairs: pairs.clone(), set, fail_write: Some(w + 1_000_000), kind: FaultKind::Other, cap, via };
+            crate::engine::guarded(|| check(&c, rec)).map_err(|f| (c.to_json(), f))?;
+        }
     }
-    for kind in FaultKind::ALL {
+    for (ki, kind) in FaultKind::ALL.into_iter().enumerate() {
         for pos in 0..=w {
-            let fail_write = if pos == w { None } else { Some(pos) };
+            // the route rotates with position and kind: each (position, route) pair is met
+            // under at least one kind
+            let via = ((pos + ki as u64) % 5) as u8;
+            if pos > ws[via as usize] {
+                continue;
+            }
+            let fail_write = if pos == ws[via as usize] { None } else { Some(pos) };
             if fail_write.is_none() && kind == FaultKind::OkZero {
                 continue; // a zero-length write has no flush analogue
             }
-            let c = Case { pairs: pairs.clone(), set, fail_write, kind, cap };
+            let c = Case { pairs: pairs.clone(), set, fail_write, kind, cap, via };
             crate::engine::guarded(|| check(&c, rec)).map_err(|f| (c.to_json(), f))?;
         }
     }
@@ -176,7 +260,7 @@ fn enumerate(pairs: &Pairs, set: bool, cap: usize, rec: &mut Rec) -> Result<(), 
 }
 
 pub fn run(e: &Engine) {
-    e.set_rule("for every explored key sequence the fault-free build is measured (W write calls), then every write-call index 0..W and the final flush is made the single failing call, for each failure kind (Other, BrokenPipe, PermissionDenied, WouldBlock, UnexpectedEof, explicit WriteZero, Ok(0)); each builder call must return Err(Io(kind)) exactly when the fault fired during it, nothing may panic, and finish may return Ok only if the sink holds the complete file and was flushed after the last write; non-trivial = fault at write index >= 2 (node or footer emission) or in the flush; distinct by (sequence, position, kind, cap)");
+    e.set_rule("for every explored key sequence and each of five routes (raw builder + finish, MapBuilder/SetBuilder + finish, the same + into_inner, extend_iter + into_inner, extend_stream + finish) the fault-free build is measured (W write calls), then every write-call index 0..W and the final flush is made the single failing call, for each failure kind (Other, BrokenPipe, PermissionDenied, WouldBlock, UnexpectedEof, explicit WriteZero, Ok(0)); each builder call must return Err(Io(kind)) exactly when the fault fired during it, nothing may panic, and finish may return Ok only if the sink holds the complete file and was flushed after the last write; non-trivial = fault at write index >= 2 (node or footer emission) or in the flush; distinct by (sequence, position, kind, cap)");
     e.assume("Interrupted is not a failure (retried; owned by C07); behaviour of calls after the first error is not part of the statement");
     // fixed sequences incl. a fan-out > 32 node (the 256-byte index write is a fault site)
     let mut fixed: Vec<(Pairs, bool)> = vec![
@@ -218,7 +302,7 @@ pub fn run(e: &Engine) {
         // which builder call a sink failure surfaces in depends on how the builder batches its writes
         e.expect_class(cls, 1);
     }
-    for cls in ["fault_injected", "fault_in_flush", "kind:Ok(0)", "kind:WouldBlock", "no_fault_reached"] {
+    for cls in ["fault_injected", "fault_in_flush", "kind:Ok(0)", "kind:WouldBlock", "no_fault_reached", "via:wrapper+finish", "via:wrapper+into_inner", "via:extend_iter+into_inner", "via:extend_stream+finish"] {
         e.require_class(cls, 1);
     }
 }
